@@ -38,6 +38,8 @@ def get_parser() -> argparse.ArgumentParser:
         help="Path to a model JSON file. By default uses packaged model file.",
         type=str,
         nargs="*",
+        # `-m a.json -m b.json` means the same as `-m a.json b.json`.
+        action="extend",
     )
     parser.add_argument(
         "--plugin",
